@@ -350,6 +350,70 @@ PBT_PROPERTY(limits)
     c.fail("C13/mutate/error-offset-outside", "error offset outside input");
 }
 
+
+// ------------------------------------------------------------------------- emit
+// Differential partner for the thorough tier: every generated text is written to
+// $C13_EMIT together with a canonical rendering of (a) what iora decoded and (b) what
+// the generator intended; props/c13_pydiff.py decodes the same text with Python's json
+// module and compares all three.
+static void canonV(const V &v, std::string &o)
+{
+  switch (v.k)
+  {
+  case V::Null: o += "n"; break;
+  case V::Bool: o += v.b ? "t" : "f"; break;
+  case V::Int: o += "i" + std::to_string(v.i); break;
+  case V::Dbl: { std::uint64_t b; std::memcpy(&b, &v.d, 8); char buf[24]; std::snprintf(buf, sizeof buf, "d%016llx", (unsigned long long)b); o += buf; break; }
+  case V::Str: o += "s" + pbt::hex(v.s, 1u << 30); break;
+  case V::Arr: o += "["; for (std::size_t i = 0; i < v.a.size(); ++i) { if (i) o += ","; canonV(v.a[i], o); } o += "]"; break;
+  case V::Obj:
+  {
+    std::map<std::string, const V *> m;
+    for (auto &kv : v.o) m[kv.first] = &kv.second;
+    o += "{";
+    bool first = true;
+    for (auto &kv : m) { if (!first) o += ","; first = false; o += pbt::hex(kv.first, 1u << 30) + ":"; canonV(*kv.second, o); }
+    o += "}";
+  }
+  }
+}
+static void canonJ(const Json &j, std::string &o)
+{
+  if (j.isNull()) o += "n";
+  else if (j.isBool()) o += j.getBool() ? "t" : "f";
+  else if (j.isInt()) o += "i" + std::to_string(j.getInt());
+  else if (j.isDouble()) { double d = j.getDouble(); std::uint64_t b; std::memcpy(&b, &d, 8); char buf[24]; std::snprintf(buf, sizeof buf, "d%016llx", (unsigned long long)b); o += buf; }
+  else if (j.isString()) o += "s" + pbt::hex(j.getString(), 1u << 30);
+  else if (j.isArray()) { o += "["; bool first = true; for (auto &e : j.getArray()) { if (!first) o += ","; first = false; canonJ(e, o); } o += "]"; }
+  else
+  {
+    std::map<std::string, const Json *> m;
+    for (auto &kv : j.getObject()) m[kv.first] = &kv.second;
+    o += "{";
+    bool first = true;
+    for (auto &kv : m) { if (!first) o += ","; first = false; o += pbt::hex(kv.first, 1u << 30) + ":"; canonJ(*kv.second, o); }
+    o += "}";
+  }
+}
+
+PBT_PROPERTY(emit)
+{
+  static FILE *f = [] { const char *p = std::getenv("C13_EMIT"); return p ? std::fopen(p, "w") : nullptr; }();
+  refjson::GenOpts go;
+  go.maxDepth = 4;
+  go.maxWidth = 4;
+  V v = refjson::genValue(src, go, 0);
+  refjson::Features feat;
+  std::string text = refjson::render(src, v, feat, go);
+  c.describe(text);
+  if (feat.escapes || feat.nonIntegerNumbers || feat.maxDepth >= 2) c.nontrivial(pbt::hash64(text));
+  auto r = Json::parse(std::string_view(text), ParseLimits{});
+  std::string ci = "REJECTED", cv;
+  if (r.ok) { ci.clear(); canonJ(r.value, ci); }
+  canonV(v, cv);
+  if (f) { std::fprintf(f, "%s\t%s\t%s\n", pbt::hex(text, 1u << 30).c_str(), ci.c_str(), cv.c_str()); std::fflush(f); }
+}
+
 // ------------------------------------------------------------- fixed regressions
 static void parseExpect(pbt::Case &c, const std::string &text, const V &expect, const std::string &sig)
 {
